@@ -173,5 +173,16 @@ m("c08-optimal-circuit-without-projective", "C08", VQE, "        if self.project
 m("c08-energy-cached-by-parameters", "C08", VQE, "        energy = self.backend.get_expectation_value(self.qubit_hamiltonian, circuit, **self.simulate_options)\n\n        # Additional computation for deflation",
   "        key = tuple(np.round(np.array(var_params, dtype=float), 3))\n        if not hasattr(self, \"_ecache\"):\n            self._ecache = dict()\n        if key not in self._ecache:\n            self._ecache[key] = self.backend.get_expectation_value(self.qubit_hamiltonian, circuit, **self.simulate_options)\n        energy = self._ecache[key]\n\n        # Additional computation for deflation")
 
+# ---- C19 ------------------------------------------------------------------------------------------------------------
+m("c19-pauli-noise-skips-controls", "C19", TRCIRQ, "                    if gate.control is not None:\n                        target_circuit += [depo(qubit_list[c]) for c in gate.control]", "                    pass")
+m("c19-depol-rate-not-converted", "C19", TRCIRQ, "depo = cirq.depolarize(np*(4**depo_size-1)/4**depo_size, depo_size)", "depo = cirq.depolarize(np, depo_size) if depo_size > 1 else cirq.depolarize(np*3/4, 1)")
+m("c19-depol-skips-controls", "C19", TRCIRQ, "                    if gate.control is not None:\n                        depo_list += [qubit_list[c] for c in gate.control]", "                    pass")
+m("c19-pauli-probabilities-permuted", "C19", TRCIRQ, "depo = cirq.asymmetric_depolarize(np[0], np[1], np[2])", "depo = cirq.asymmetric_depolarize(np[0], np[2], np[1])")
+m("c19-revert-noise-on-multicontrolled-cnot", "C19", TRCIRQ, "        if noise_model and (source_gate_name in noise_model.noisy_gates):\n            for nt, np in noise_model._quantum_errors[source_gate_name]:", "        if noise_model and (gate.name in noise_model.noisy_gates):\n            for nt, np in noise_model._quantum_errors[gate.name]:")
+m("c19-second-channel-dropped", "C19", "tangelo/linq/noisy_simulation/noise_models.py", "                self._quantum_errors[abs_gate] += [(noise_type, noise_params)]", "                self._quantum_errors[abs_gate] = self._quantum_errors[abs_gate][:1]")
+m("c19-same-type-twice-accepted", "C19", "tangelo/linq/noisy_simulation/noise_models.py", "            if noise_type not in {nt for nt, np in self._quantum_errors[abs_gate]}:", "            if True:")
+m("c19-noise-without-shots-accepted", "C19", BACK, "        if not self.n_shots and (not self.statevector_available or self._noise_model):", "        if not self.n_shots and (not self.statevector_available):")
+m("c19-noisy-sampling-ignores-noise-for-empty-model-check", "C19", TCIRQ, "        if self._noise_model or (source_circuit.is_mixed_state and not save_mid_circuit_meas):\n            cirq_simulator = self.cirq.DensityMatrixSimulator(dtype=np.complex128)", "        if (self._noise_model and source_circuit.size > 2) or (source_circuit.is_mixed_state and not save_mid_circuit_meas):\n            cirq_simulator = self.cirq.DensityMatrixSimulator(dtype=np.complex128)")
+
 EXPECTED_MISS = {"c07-puccd-mapping-reversed": "build_circuit delegates to update_var_params: single code path, invisible to incremental-vs-fresh"}
 MUTANTS = M
